@@ -176,6 +176,8 @@ type ioGhost struct {
 }
 
 type calleeCtx struct {
+	ghostLen   map[string]*Term  // use mode: length of a ghost log of the callee's own abstraction
+	ghostBytes map[string]SliceV // use mode: its entries
 	fresh    map[int]bool
 	havocked map[*Object]bool
 	fn      *ssa.Function
@@ -2173,9 +2175,33 @@ func (x *Exec) loadTyped(p Value, t types.Type) Value {
 			return v
 		}
 	case *ChoiceV:
-		return x.mergeValue(pv.C, x.loadTyped(pv.A, t), x.loadTyped(pv.B, t))
+		return x.mergeValue(pv.C, x.loadEmptyOK(pv.A, t), x.loadEmptyOK(pv.B, t))
 	}
 	return x.load(p)
+}
+
+// loadEmptyOK: one side of a merged pointer.  An element of an EMPTY concrete array at a symbolic
+// index (the side of the merge on which the slice is empty, so that no index is in range there) is an
+// arbitrary value of the type: the merge condition together with the index guard excludes it.
+func (x *Exec) loadEmptyOK(p Value, t types.Type) (v Value) {
+	if pv, ok := p.(PtrV); ok && pv.Obj != nil && len(pv.Path) == 1 && pv.Path[0].Idx != nil && !pv.Path[0].Idx.IsConst() {
+		if cur, ok := x.st.heap.m[pv.Obj]; ok {
+			if a, isA := cur.(ArrayV); isA && len(a.E) == 0 {
+				n := len(x.inputs)
+				v = x.freshValue("empty-elem", t, 1)
+				x.inputs = x.inputs[:n]
+				return v
+			}
+		} else if cur, ok := x.constObjs[pv.Obj]; ok {
+			if a, isA := cur.(ArrayV); isA && len(a.E) == 0 {
+				n := len(x.inputs)
+				v = x.freshValue("empty-elem", t, 1)
+				x.inputs = x.inputs[:n]
+				return v
+			}
+		}
+	}
+	return x.loadTyped(p, t)
 }
 
 func (x *Exec) mergeGhost(c *Term, a, b map[string][]Value) map[string][]Value {
